@@ -98,6 +98,7 @@ fn check_named(c: usize, i: u64) -> CheckResult {
     for k in 0..4u8 {
         nt |= for_impl!(k, check_named_impl(c, i))?;
     }
+    check_concrete_paths_named(c, i)?;
     Ok(nt)
 }
 
@@ -150,7 +151,96 @@ fn check_generic(which: u8, ti: usize, ch: u8, d1: u8, d2: u8) -> CheckResult {
     for k in 0..4u8 {
         nt |= for_impl!(k, check_generic_impl(which, ti, ch, d1, d2))?;
     }
+    check_concrete_paths_generic(which, ti, ch, d1, d2)?;
     Ok(nt)
+}
+
+
+// ---------------------------------------------------------------------------------------------
+// Concrete-path calls: `RawShortMessage::note_on(..)` written against the concrete type, so that
+// inherent associated functions that shadow the trait's functions are what gets called. They must
+// build the same message (or panic in the same cases) as the trait function.
+// ---------------------------------------------------------------------------------------------
+
+macro_rules! concrete_factory {
+    ($named:ident, $generic:ident, $t:ty) => {
+        fn $named(c: usize, i: u64) -> $t {
+            let ch = || h_ch(if c <= 3 { (i / 16384) as u8 } else if c <= 5 { (i / 128) as u8 } else { (i / 16384) as u8 });
+            let a = || ((i / 128) % 128) as u8;
+            let b = || (i % 128) as u8;
+            match c {
+                0 => api(|| <$t>::note_off(ch(), h_key(a()), h_u7(b()))),
+                1 => api(|| <$t>::note_on(ch(), h_key(a()), h_u7(b()))),
+                2 => api(|| <$t>::polyphonic_key_pressure(ch(), h_key(a()), h_u7(b()))),
+                3 => api(|| <$t>::control_change(ch(), h_cn(a()), h_u7(b()))),
+                4 => api(|| <$t>::program_change(ch(), h_u7(b()))),
+                5 => api(|| <$t>::channel_pressure(ch(), h_u7(b()))),
+                6 => api(|| <$t>::pitch_bend_change(ch(), h_u14((i % 16384) as u16))),
+                7 => api(|| <$t>::time_code_quarter_frame(frame_by_index(i))),
+                8 => api(|| <$t>::song_position_pointer(h_u14(i as u16))),
+                9 => api(|| <$t>::song_select(h_u7(i as u8))),
+                10 => api(|| <$t>::system_exclusive_start()),
+                11 => api(|| <$t>::tune_request()),
+                12 => api(|| <$t>::system_exclusive_end()),
+                13 => api(|| <$t>::timing_clock()),
+                14 => api(|| <$t>::start()),
+                15 => api(|| <$t>::r#continue()),
+                16 => api(|| <$t>::stop()),
+                17 => api(|| <$t>::active_sensing()),
+                _ => api(|| <$t>::system_reset()),
+            }
+        }
+        /// Ok(bytes) or Err(()) if the call panicked
+        fn $generic(which: u8, ty: ShortMessageType, ch: u8, d1: u8, d2: u8) -> Result<(u8, u8, u8), ()> {
+            let r = expect_panic(|| match which {
+                0 => <$t>::channel_message(ty, h_ch(ch), h_u7(d1), h_u7(d2)),
+                1 => <$t>::system_common_message(ty, h_u7(d1), h_u7(d2)),
+                _ => <$t>::system_real_time_message(ty),
+            });
+            match r {
+                Ok(_) => Err(()),
+                Err(m) => {
+                    let b = m.to_bytes();
+                    Ok((b.0, b.1.get(), b.2.get()))
+                }
+            }
+        }
+    };
+}
+concrete_factory!(named_concrete_raw, generic_concrete_raw, RawShortMessage);
+concrete_factory!(named_concrete_structured, generic_concrete_structured, StructuredShortMessage);
+
+fn check_concrete_paths_named(c: usize, i: u64) -> Result<(), Fail> {
+    let (s, d1, d2) = named_expected(c, i);
+    let r = named_concrete_raw(c, i);
+    let b = r.to_bytes();
+    ensure!((b.0, b.1.get(), b.2.get()) == (s, d1, d2), format!("{}/Raw/concrete_path_differs_from_trait", NAMED[c]), "RawShortMessage::{}(..) (concrete path) = {:?}, expected bytes {:?}", NAMED[c], r, (s, d1, d2));
+    let st = named_concrete_structured(c, i);
+    let b = st.to_bytes();
+    ensure!((b.0, b.1.get(), b.2.get()) == ref_canon(s, d1, d2), format!("{}/Structured/concrete_path_differs_from_trait", NAMED[c]), "StructuredShortMessage::{}(..) (concrete path) = {:?}", NAMED[c], st);
+    Ok(())
+}
+
+fn check_concrete_paths_generic(which: u8, ti: usize, ch: u8, d1: u8, d2: u8) -> Result<(), Fail> {
+    let (tb, ty) = TYPE_TABLE[ti];
+    let name = ["channel_message", "system_common_message", "system_real_time_message"][which as usize];
+    let should_panic = category(tb) != which;
+    let want = match which {
+        0 => (tb | ch, d1, d2),
+        1 => (tb, d1, d2),
+        _ => (tb, 0, 0),
+    };
+    let r = generic_concrete_raw(which, ty, ch, d1, d2);
+    ensure!(r.is_err() == should_panic, format!("{}/Raw/concrete_path/{}", name, if should_panic { "no_panic_for_wrong_category" } else { "panics_for_right_category" }), "RawShortMessage::{}({:?}, ..) (concrete path): {:?}", name, ty, r);
+    if let Ok(b) = r {
+        ensure!(b == want, format!("{}/Raw/concrete_path_differs_from_trait", name), "{:?} vs {:?}", b, want);
+    }
+    let r = generic_concrete_structured(which, ty, ch, d1, d2);
+    ensure!(r.is_err() == should_panic, format!("{}/Structured/concrete_path/{}", name, if should_panic { "no_panic_for_wrong_category" } else { "panics_for_right_category" }), "StructuredShortMessage::{}({:?}, ..) (concrete path): {:?}", name, ty, r);
+    if let Ok(b) = r {
+        ensure!(b == ref_canon(want.0, want.1, want.2), format!("{}/Structured/concrete_path_differs_from_trait", name), "{:?} vs {:?}", b, want);
+    }
+    Ok(())
 }
 
 // ---------------------------------------------------------------------------------------------
